@@ -1287,7 +1287,12 @@ fn fam_random<T: Payload>(c: &Case, cx: &mut Ctx) -> Outcome {
     // spare handles so that futures/streams can borrow one and drops do not disconnect by accident
     sc.mexec(Op::CloneS(rng.chance(1, 2)));
     sc.mexec(Op::CloneR(rng.chance(1, 2)));
-    let nsteps = 5 + rng.below(10) as usize;
+    let nsteps = 5 + rng.below(12) as usize;
+    // most scripts lean to one side so that the wait list grows to three or four entries of one kind
+    let bias = rng.below(3); // 0 receivers, 1 senders (buffer filled first), 2 mixed
+    if bias == 1 {
+        fill(&mut sc);
+    }
     let mut live: Vec<usize> = vec![];
     let mut closed = false;
     let mut stream_used = false;
@@ -1295,9 +1300,13 @@ fn fam_random<T: Payload>(c: &Case, cx: &mut Ctx) -> Outcome {
         // reap workers that have returned
         live.retain(|w| !sc.worker_finished(*w));
         let r = rng.below(100);
-        if r < 22 && live.len() < 4 && !closed {
+        if r < 30 && live.len() < 4 && !closed {
             // a new waiter
-            let recv_side = rng.chance(1, 2);
+            let recv_side = match bias {
+                0 => rng.chance(5, 6),
+                1 => rng.chance(1, 6),
+                _ => rng.chance(1, 2),
+            };
             let kinds = if recv_side { wr_kinds() } else { ws_kinds() };
             let mut k = *rng.pick(&kinds);
             if rng.chance(1, 5) {
